@@ -93,6 +93,7 @@ class Fn:
         self.arm = arm_key(self.name)
         self._preds = None
         self._dom = None
+        self._live = None
 
     def __repr__(self):
         return '<Fn %s>' % self.name
@@ -122,6 +123,8 @@ class Fn:
 
     def live_blocks(self):
         """non-cleanup blocks reachable from entry"""
+        if self._live is not None:
+            return self._live
         seen = set()
         st = [0]
         while st:
@@ -130,6 +133,7 @@ class Fn:
                 continue
             seen.add(b)
             st.extend(self.succ(b))
+        self._live = seen
         return seen
 
     def preds(self):
@@ -281,6 +285,7 @@ class Facts:
                 self._closures[m.group(1)].append(n)
         self._cg = None
         self._inst = {}
+        self._ct = {}
         self._by_trait = collections.defaultdict(list)
         for f in self.fns.values():
             if f.trait and not f.is_promoted and not f.is_closure:
@@ -401,6 +406,14 @@ class Facts:
 
     def call_targets(self, fn, t):
         """local functions a call terminator may enter (directly, or through a std/serde trampoline)"""
+        ck = (fn.name, id(t))
+        if ck in self._ct:
+            return self._ct[ck]
+        out = self._call_targets(fn, t)
+        self._ct[ck] = out
+        return out
+
+    def _call_targets(self, fn, t):
         c = t['callee']
         out = set()
         for a in t['args']:
